@@ -245,10 +245,17 @@ class Ctx:
 
 
 def load_known_findings():
-    p = os.path.join(ROOT, "known_findings.json")
-    if os.path.exists(p):
-        return json.load(open(p))
-    return {"known": [], "fixed": []}
+    kf = {"known": [], "fixed": []}
+    paths = [os.path.join(ROOT, "known_findings.json")]
+    d = os.path.join(ROOT, "known_findings.d")
+    if os.path.isdir(d):
+        paths += sorted(os.path.join(d, f) for f in os.listdir(d) if f.endswith(".json"))
+    for p in paths:
+        if os.path.exists(p):
+            j = json.load(open(p))
+            kf["known"] += j.get("known", [])
+            kf["fixed"] += j.get("fixed", [])
+    return kf
 
 
 def main(argv):
